@@ -97,6 +97,9 @@ def specWalk (cfg : Cfg) : List Clause → List (List (List Char)) → List Tok 
       specWalk cfg seen (clauseCols t) rest
     else none
   | _, _, .cl (.edit _) :: _ => none
+  | seen, cols, .cl (.mood c s m) :: rest =>
+    -- a mood is named by an identifier (the lexical class is the parser's `identRe`)
+    if isIdent m.toList then specWalk cfg (seen ++ [.mood c s m]) cols rest else none
   | seen, cols, .cl c :: rest => specWalk cfg (seen ++ [c]) cols rest
 
 def specPlay (cfg : Cfg) (ts : List Tok) : String :=
